@@ -35,6 +35,20 @@ func (c *Ctx) mapTable(pkgrel, ts, name string) (*MapV, *types.Var, token.Pos) {
 	}
 	val, pos, err := c.evalVar(v)
 	if err != nil {
+		// not a literal: what the package initialiser leaves in the variable, when that folds (a table filled from a
+		// list of specs, two tables made by one helper)
+		if sp := c.ssapkg(pkgrel); sp != nil {
+			if g := sp.Var(v.Name()); g != nil {
+				if mv, ok := c.globalTable(g).cv.(*MapV); ok {
+					for i := range mv.Entries {
+						if mv.Entries[i].Pos == 0 {
+							mv.Entries[i].Pos = v.Pos()
+						}
+					}
+					return mv, v, v.Pos()
+				}
+			}
+		}
 		c.undec(pkgrel+"."+v.Name(), c.pos(v.Pos()), "", "table initialiser is not a constant literal: "+err.Error())
 		return nil, v, pos
 	}
@@ -132,8 +146,8 @@ func ruleTabNote(c *Ctx) {
 		}
 	}
 	// letter strings
-	if m, v, pos := c.mapTable("note", "map[note.Name]string", "nameStringMap"); m != nil {
-		tab := "note." + v.Name()
+	if m, vname, pos := c.printedTable("note", "map[note.Name]string", "nameStringMap", "Name.String", "Name", "UnknownName"); m != nil {
+		tab := "note." + vname
 		for _, e := range m.Entries {
 			s, _ := asStr(e.V)
 			c.site(1)
@@ -628,6 +642,7 @@ func ruleTabDegree(c *Ctx) {
 	}
 
 	// when the size function folds for every (number, quality) the algorithm needs no shape analysis: decide it by value
+	c.checkNoHiddenState()
 	if done := c.degreeSizesByFolding(); done {
 		c.checkCoerceTables()
 		return
@@ -1160,12 +1175,64 @@ func ruleTabNotation(c *Ctx) {
 
 // ---------------------------------------------------------------------------
 
+// keySignatureTable: the table key spelling -> signed number of accidentals. The variable of that type when there is one;
+// otherwise the same table read off the folded op.keySignatures (the keys rendered letter + accidental + m, the number the
+// size of the row's set, negative for flat rows), whatever the seeds it is built from look like.
+func (c *Ctx) keySignatureTable() (*MapV, string, token.Pos) {
+	if v := c.tableVar("op", "map[string]int", "keyStringSignatures"); v != nil {
+		m, v2, _ := c.mapTable("op", "map[string]int", "keyStringSignatures")
+		if v2 != nil {
+			return m, v2.Name(), v2.Pos()
+		}
+		return m, "keyStringSignatures", v.Pos()
+	}
+	sp := c.ssapkg("op")
+	if sp == nil || sp.Var("keySignatures") == nil {
+		c.missing("op.keyStringSignatures (map[string]int)")
+		return nil, "keyStringSignatures", 0
+	}
+	g := sp.Var("keySignatures")
+	mv, ok := c.globalTable(g).cv.(*MapV)
+	if !ok {
+		c.missing("op.keyStringSignatures (map[string]int)")
+		return nil, "keyStringSignatures", 0
+	}
+	out := &MapV{}
+	for _, e := range mv.Entries {
+		ks, isK := e.K.(*StructV)
+		row, isR := e.V.(*StructV)
+		if !isK || !isR {
+			c.undec("op.keySignatures", c.pos(g.Pos()), "", "a row of the folded signature table is not a key / row pair")
+			return nil, "keyStringSignatures", g.Pos()
+		}
+		spell := ks.Fields["Name"].vstr()
+		switch ks.Fields["Accidental"].vstr() {
+		case "Sharp":
+			spell += "#"
+		case "Flat":
+			spell += "b"
+		}
+		if mn, ok := ks.Fields["Minor"].(*CVal); ok && mn.V.Kind() == constant.Bool && constant.BoolVal(mn.V) {
+			spell += "m"
+		}
+		n := int64(0)
+		if set, ok := row.Fields["names"].(*MapV); ok {
+			n = int64(len(set.Entries))
+		}
+		if sh, ok := row.Fields["isSharp"].(*CVal); !ok || sh.V.Kind() != constant.Bool || !constant.BoolVal(sh.V) {
+			n = -n
+		}
+		out.Entries = append(out.Entries, KV{K: &CVal{V: constant.MakeString(spell), T: types.Typ[types.String], c: c}, V: &CVal{V: constant.MakeInt64(n), T: types.Typ[types.Int], c: c}, Pos: g.Pos()})
+	}
+	return out, "keyStringSignatures", g.Pos()
+}
+
 func ruleTabKeysig(c *Ctx) {
-	m, v, _ := c.mapTable("op", "map[string]int", "keyStringSignatures")
+	m, vname, vpos := c.keySignatureTable()
 	if m == nil {
 		return
 	}
-	tab := "op." + v.Name()
+	tab := "op." + vname
 	have := map[string]int64{}
 	for _, e := range m.Entries {
 		ks, _ := asStr(e.K)
@@ -1195,7 +1262,7 @@ func ruleTabKeysig(c *Ctx) {
 	}
 	for _, rk := range requiredKeys() {
 		if _, ok := have[rk]; !ok {
-			c.bad(tab+"|"+rk, c.pos(v.Pos()), "", "required key "+rk+" has no row: crd has no scale for it")
+			c.bad(tab+"|"+rk, c.pos(vpos), "", "required key "+rk+" has no row: crd has no scale for it")
 		}
 	}
 
@@ -1242,7 +1309,7 @@ func ruleTabKeysig(c *Ctx) {
 				alt = append(alt, flats[7-n:]...)
 			}
 			sort.Strings(alt)
-			c.check(strings.Join(alt, "") == strings.Join(sc.altered(), ""), tab+"|altered|"+ks, c.pos(v.Pos()), "",
+			c.check(strings.Join(alt, "") == strings.Join(sc.altered(), ""), tab+"|altered|"+ks, c.pos(vpos), "",
 				fmt.Sprintf("%s alters %v", ks, alt), fmt.Sprintf("%s: slicing the sequence alters %v, the derived scale alters %v", ks, alt, sc.altered()))
 			// C03 precondition: tonic's own accidental under the row equals the key's accidental
 			tonicAlt := 0
@@ -1255,7 +1322,7 @@ func ruleTabKeysig(c *Ctx) {
 					}
 				}
 			}
-			c.check(tonicAlt == k.Acc, tab+"|tonic|"+ks, c.pos(v.Pos()), "", "tonic carries the key's accidental", fmt.Sprintf("%s: the scale built from the row starts on %s with accidental %+d, the key says %+d: every conversion in this key is a semitone off", ks, k.Letter, tonicAlt, k.Acc))
+			c.check(tonicAlt == k.Acc, tab+"|tonic|"+ks, c.pos(vpos), "", "tonic carries the key's accidental", fmt.Sprintf("%s: the scale built from the row starts on %s with accidental %+d, the key says %+d: every conversion in this key is a semitone off", ks, k.Letter, tonicAlt, k.Acc))
 		}
 	}
 }
